@@ -362,6 +362,25 @@ DIRECT = [
      {'c': ['-1', '-2', '1', '2.0**61', '0.5', '2.0**60']}, {'c': 'constant'}),
     (2, 'V = VForm(2); u, v = V.basisfuns(); V.add(exp(ConstExpr({c}) * V.Geo[0]) * exp(ConstExpr({z})) * u * v * dx)',
      {'c': ['-1', '-2'], 'z': ['0.0', '-0.0']}, {'c': 'constant', 'z': 'constant'}),
+    # tensor-valued variables bound with let(): elementwise operations survive un-indexed in the initial tree
+    (2, "V = VForm(2); u, v = V.basisfuns(); c = V.parameter('c', shape=(2,)); d = V.parameter('d', shape=(2,)); "
+        "w = V.let('w', c {op} d); V.add(inner(w, grad(u)) * v * dx)",
+     {'op': ['+', '-', '*', '/']}, {'op': 'operator'}),
+    (2, "V = VForm(2); u, v = V.basisfuns(); A = V.parameter('A', shape=(2, 2)); B = V.input('B', shape=(2, 2)); "
+        "K = V.let('K', A {op} B); V.add(inner(dot(K, grad(u)), grad(v)) * dx)",
+     {'op': ['+', '-', '*', '/']}, {'op': 'operator'}),
+    (2, "V = VForm(2); u, v = V.basisfuns(); c = V.parameter('c', shape=(2,)); w = V.let('w', grad(u) {op} c); V.add(inner(w, grad(v)) * dx)",
+     {'op': ['-', '+', '*']}, {'op': 'operator'}),
+    (2, "V = VForm(2); u, v = V.basisfuns(); c = V.parameter('c', shape=(2,)); w = V.let('w', {s} * c); V.add(inner(w, grad(u)) * v * dx)",
+     {'s': ['2', '3', '-1', '-2']}, {'s': 'constant'}),
+    (3, "V = VForm(3); u, v = V.basisfuns(); c = V.parameter('c', shape=(3,)); d = V.input('d', shape=(3,)); "
+        "w = V.let('w', cross(c, d) {op} c); M = V.let('M', outer(c, d) {op} outer(d, c)); V.add((inner(w, grad(u)) * v + inner(dot(M, grad(u)), grad(v))) * dx)",
+     {'op': ['+', '-']}, {'op': 'operator'}),
+    (2, "V = VForm(2); u, v = V.basisfuns(); A = V.parameter('A', shape=(2, 2)); c = V.parameter('c', shape=(2,)); "
+        "w = V.let('w', dot(A, c) {op} c); K = V.let('K', dot(A, A) {op} A.T, symmetric={sym}); V.add((inner(w, grad(u)) * v + inner(dot(K, grad(u)), grad(v))) * dx)",
+     {'op': ['+', '-'], 'sym': ['False', 'True']}, {'op': 'operator', 'sym': 'symmetric'}),
+    (2, "V = VForm(2); u, v = V.basisfuns(); f = V.input('f'); s = V.let('s', {fn}(f) {op} f); V.add(s * u * v * dx)",
+     {'fn': ['sqrt', 'abs', 'exp'], 'op': ['+', '*']}, {'fn': 'function', 'op': 'operator'}),
     (2, "V = VForm(2); u, v = V.basisfuns(); g = V.input('g', shape=({k},)); V.add(g[0] * u * v * dx)",
      {'k': ['2', '3']}, {'k': 'shape'}),
 ]
